@@ -1,7 +1,7 @@
 """C13 - deep copy and model duplication are faithful and independent: a copy shares no node with its source, the
 source is only read, every field of a node is copied, duplicate() builds the copy only through the new model."""
 from ir import Program, callee_of, callee_generic, has_field, ends_in_field
-from flow import origins, is_local_op, call_matches, must_pass, source_names, strict_source_roots, iter_uses, forward_taint, resolve_place, deep_sources
+from flow import origins, is_local_op, call_matches, must_pass, source_names, strict_source_roots, iter_uses, forward_taint, resolve_place, deep_sources, switch_edges_on_call_result
 import events as E
 from pairing import calls, dominated_by
 from framework import Check
@@ -95,13 +95,13 @@ def run(ctx):
             n0, c0, f0 = deep_sources(dc, t['args'][0])
             if any(c.endswith('ElementType::find_sub_element') for c in c0) and guarded_by_true(dc, e1['pos'], cp):
                 fs = [dc.blocks[p2[0]]['term'] for p2 in calls(dc, r'ElementType::find_sub_element$')]
-                if fs and all('target_version' in deep_sources(dc, f['args'][2])[0] and 'ElementRaw.elemtype' in deep_sources(dc, f['args'][0])[2] for f in fs):
+                if fs and all('target_version' in deep_sources(dc, f['args'][2])[0] and 'elemtype' in deep_sources(dc, f['args'][0])[0] for f in fs):
                     g = True
         # also accept `if let Some(..) = find_sub_element(..)`
         if not g:
             for cp in calls(dc, r'ElementType::find_sub_element$'):
                 sw = switch_edges_on_call_result(dc, cp)
-                if sw and 'target_version' in deep_sources(dc, dc.blocks[cp[0]]['term']['args'][2])[0]:
+                if sw and 'target_version' in deep_sources(dc, dc.blocks[cp[0]]['term']['args'][2])[0] and 'elemtype' in deep_sources(dc, dc.blocks[cp[0]]['term']['args'][0])[0]:
                     blk, ts, els = sw
                     some = ts.get('1', els)
                     from pairing import iteration_start
@@ -109,6 +109,17 @@ def run(ctx):
                         g = True
         C.check(g, 'C13-MUST-filter', 'sub-element|allowed-in-target-version|#%d' % i, 'deep_copy keeps a sub element without looking it up in the parent type for the target version (self.elemtype.find_sub_element(name, target_version))', dc.where(e1['pos']),
                 sample={'fn': 'deep_copy', 'guard': 'self.elemtype.find_sub_element(name, target_version).is_some()'})
+    # character content: only values permitted in the target version are copied
+    gv = False
+    for cp in calls(dc, r'Option::<T>::(is_none_or|is_some_and|map_or)$'):
+        t = dc.blocks[cp[0]]['term']
+        if not any(c.endswith('ElementType::chardata_spec') for c in deep_sources(dc, t['args'][0], depth=8)[1]):
+            continue
+        clo = [cb for cb in P.closures_of(dc) if calls(cb, r'CharacterData>?::check_version_compatibility$')]
+        if clo and call_matches(t, r'is_none_or$') and guarded_by_true(dc, cd[0]['pos'], cp):
+            gv = True
+    C.check(gv, 'C13-MUST-filter', 'character-content|value-valid-in-target-version', 'deep_copy keeps character content without checking the value against the target version (enum items carry version masks): an element whose enum value was introduced later is copied into an older file',
+            dc.where(cd[0]['pos']), sample={'fn': 'deep_copy', 'guard': 'chardata_spec().is_none_or(|spec| cdata.check_version_compatibility(spec, target_version).0)'})
     # registration of the copy in the destination index: exactly the identifiable elements of the copy
     ci = P.get('ElementRaw::create_copied_sub_element_inner')
     adds = [o for o in E.ident_ops(ci) if o['op'] == 'add']
@@ -158,6 +169,25 @@ def run(ctx):
             if f in reset:
                 okf = all((k == 'agg' and v == 'ElementOrModel::None') or (k == 'call' and 'HashSet' in v and 'with_capacity' in v) for k, v in vs)
                 C.check(okf, 'C13-SIB-fields', 'field|%s|reset' % f, 'ElementRaw.%s is expected to be reset in a copy but is built from %s' % (f, vs))
+                continue
+            if f == 'elemtype':
+                # the copy has the type its NEW parent prescribes: the parameter of deep_copy, which the two callers take from
+                # find_sub_element(name, target version) on the type of the destination parent / of the copy one level up
+                n_, c_, f_ = deep_sources(dc, lf[f])
+                okt = 'elemtype' in n_ and 'self' not in n_
+                rcalls = calls(dc, r'ElementRaw>::deep_copy$')
+                for cp in rcalls:
+                    a_n, a_c, a_f = deep_sources(dc, dc.blocks[cp[0]]['term']['args'][2], depth=12)
+                    okt = okt and any(c.endswith('ElementType::find_sub_element') for c in a_c) and 'elemtype' in a_n
+                ci2 = P.get('ElementRaw::create_copied_sub_element_inner')
+                top = calls(ci2, r'ElementRaw>::deep_copy$')
+                okt = okt and len(top) == 1 and len(rcalls) == 1
+                if okt:
+                    a_n, a_c, a_f = deep_sources(ci2, ci2.blocks[top[0][0]]['term']['args'][2], depth=12)
+                    fs2 = [ci2.blocks[q[0]]['term'] for q in calls(ci2, r'ElementType::find_sub_element$')]
+                    okt = any(c.endswith('ElementType::find_sub_element') for c in a_c) and bool(fs2) and all('ElementRaw.elemtype' in deep_sources(ci2, t2['args'][0])[2] and 'self' in deep_sources(ci2, t2['args'][0])[0] and 'version' in deep_sources(ci2, t2['args'][2])[0] for t2 in fs2)
+                C.check(okt, 'C13-SIB-fields', 'field|elemtype|type-prescribed-by-destination', 'the copy (or a copied sub element) does not get the element type that the destination parent prescribes for its name in the target version (find_sub_element on the destination type): the same element name has different types in different parents, the copy would not validate',
+                        sample={'field': 'elemtype', 'source': 'dest_parent_type.find_sub_element(name, target_version)'})
                 continue
             # taken from self: a read of (*self).f, a clone of it, or a container sized from it (and filled by a loop over it)
             n_, c_, f_ = deep_sources(dc, lf[f])
